@@ -5,6 +5,7 @@ import (
 	"io"
 	"os"
 	"path"
+	"rare/pkg/verifhook"
 
 	"github.com/fsnotify/fsnotify"
 )
@@ -86,14 +87,17 @@ func (s *NotifyFollowReader) Read(buf []byte) (int, error) {
 		}
 
 		// Wait for changes
+		verifhook.Point("notify.beforeWait")
 		select {
 		case <-s.eventWrite:
+			verifhook.Point("notify.afterWrite")
 			if s.f == nil && s.ReOpen { // Re-open if able and willing
 				if f, err := os.Open(s.filename); err == nil {
 					s.f = f
 				}
 			}
 		case <-s.eventDelete:
+			verifhook.Point("notify.afterDelete")
 			if s.ReOpen {
 				s.closeFile()
 			} else {
